@@ -207,7 +207,7 @@ func c09RunIpos(c *c09Case) (obs string, failAt int, cls, what string, hung bool
 	}
 	var out []string
 	var finalPos int64
-	cur := -1
+	cur := 0
 	p, hung := c09Guarded(func() {
 		r := desync.NewIndexReadSeeker(idx, st)
 		var pos int64 // the position the property says the reader is at
@@ -287,7 +287,7 @@ func c09RunIpos(c *c09Case) (obs string, failAt int, cls, what string, hung bool
 		finalPos, _ = r.Seek(0, io.SeekCurrent)
 	})
 	if hung {
-		return "", cur, "hang", fmt.Sprintf("op %d (%+v) did not return within 10s", cur, c.Ops[cur]), true
+		return "", cur, "hang", fmt.Sprintf("op %d did not return within 10s", cur), true
 	}
 	if p != nil {
 		out = append(out, "P")
@@ -560,7 +560,7 @@ func c09RunFuse(c *c09Case) (obs string, failAt int, cls, what string, hung bool
 		}
 	}
 	var out []string
-	cur := -1
+	cur := 0
 	// the node prints every error to os.Stderr
 	saved := os.Stderr
 	if dn, err := os.OpenFile(os.DevNull, os.O_WRONLY, 0); err == nil {
